@@ -274,7 +274,9 @@ ORACLES = {
                     combined=True)],
     'C17': [_oracle('concatenate value and membership / negated membership against it', 200, 3000, kind='concat'),
             _oracle('concatenate with falsy elements', 100, 1500, kind='concat', falsy=True),
-            _oracle('concatenate over a flatten of nested collections', 100, 1500, kind='concat', nested=True)],
+            _oracle('concatenate over a flatten of nested collections', 100, 1500, kind='concat', nested=True),
+            _oracle('membership against a concatenate as one condition among others (and_ / or_ in either operand order, under '
+                    'not_), two concatenates over one parent variable; evaluated twice', 150, 2000, kind='concat', combined=True)],
     'C18': [_oracle('meaning preserving rewrites (swap, re-associate, mirror, contains/in_, declaration order, domain permutation)', 250, 4000, kind='rewrite'),
             _oracle('meaning preserving rewrites of literal-free conditions (result caches are hit)', 250, 4000, kind='rewrite', nolit=True),
             _oracle('re-association / re-ordering of chains of three disjuncts and conjuncts over two variables', 150, 3000, kind='chain3', nolit=True),
